@@ -132,11 +132,50 @@ Lemma inside_block_on cfgv st now before w inside :
 Proof.
   intros Hn. destruct (state_after_app cfgv st now before (OSprEnter w :: inside)) as (c' & n' & E). rewrite E.
   cbn [state_after step_op]. clear E.
-  generalize (spr_enter (spr_call (state_after cfgv st now before) w)) (eq_refl : spr_on (spr_enter (spr_call (state_after cfgv st now before) w)) = true).
+  generalize (spr_enter (match w with Some b => spr_call (state_after cfgv st now before) b | None => state_after cfgv st now before end))
+             (eq_refl : spr_on (spr_enter (match w with Some b => spr_call (state_after cfgv st now before) b | None => state_after cfgv st now before end)) = true).
   generalize c' n'. clear - Hn. induction inside as [|o rest IH]; intros c n st0 Hon; [exact Hon|].
   cbn [forallb] in Hn. apply andb_true_iff in Hn as [Ho Hr]. cbn [state_after].
   pose proof (step_op_spr c st0 n o) as S. destruct (step_op c st0 n o) as [[[out c2] st2] n2].
   apply IH; [exact Hr|]. destruct o; try congruence; discriminate.
+Qed.
+
+(* the bare form "with client.suppress_positive_response:" after an earlier block has exited: on, and NOT waiting for
+   an NRC, whatever that earlier block asked for *)
+Definition no_spr_op (o : op) : bool := match o with OSprExit | OSprEnter _ => false | _ => true end.
+
+Lemma step_op_wait cfgv st now o : no_spr_op o = true ->
+  let '(_, _, st', _) := step_op cfgv st now o in spr_wait st' = spr_wait st /\ spr_on st' = spr_on st.
+Proof.
+  intros Hn. destruct o; cbn [step_op]; try discriminate Hn; try (split; reflexivity).
+  pose proof (run_inner_flags (cfg_of cfgv) st c now (map (fun '(d, it) => (now + d, it)) replies)) as H.
+  unfold run_call. destruct (run_inner _ _ _ _ _) as [[[[res st'] t] s'] tr].
+  unfold flags_of in H. split; congruence.
+Qed.
+
+Lemma state_after_wait ops : forallb no_spr_op ops = true ->
+  forall cfgv st now, spr_wait (state_after cfgv st now ops) = spr_wait st /\ spr_on (state_after cfgv st now ops) = spr_on st.
+Proof.
+  induction ops as [|o rest IH]; intros Hn cfgv st now; [split; reflexivity|].
+  cbn [forallb] in Hn. apply andb_true_iff in Hn as [Ho Hr]. cbn [state_after].
+  pose proof (step_op_wait cfgv st now o Ho) as S.
+  destruct (step_op cfgv st now o) as [[[out cfgv'] st'] now'].
+  destruct S as [S1 S2]. destruct (IH Hr cfgv' st' now') as [I1 I2]. split; congruence.
+Qed.
+
+Lemma bare_block_not_waiting cfgv st now before mid inside :
+  forallb no_spr_op mid = true -> forallb no_spr_op inside = true ->
+  let st' := state_after cfgv st now (before ++ OSprExit :: mid ++ OSprEnter None :: inside) in
+  spr_on st' = true /\ spr_wait st' = None.
+Proof.
+  intros Hm Hi. cbv zeta.
+  destruct (state_after_app cfgv st now before (OSprExit :: mid ++ OSprEnter None :: inside)) as (c1 & n1 & E). rewrite E. clear E.
+  cbn [state_after step_op].
+  destruct (state_after_app c1 (spr_exit (state_after cfgv st now before)) n1 mid (OSprEnter None :: inside)) as (c2 & n2 & E). rewrite E. clear E.
+  destruct (state_after_wait mid Hm c1 (spr_exit (state_after cfgv st now before)) n1) as [W1 O1].
+  cbn [state_after step_op].
+  destruct (state_after_wait inside Hi c2 (spr_enter (state_after c1 (spr_exit (state_after cfgv st now before)) n1 mid)) n2) as [W2 O2].
+  rewrite W2, O2. cbn [spr_enter spr_on spr_wait]. split; [reflexivity|]. rewrite W1. reflexivity.
 Qed.
 
 (* ---- C10: timing adoption ------------------------------------------------------------------------- *)
